@@ -8,57 +8,47 @@
    by zero), no contract failure and does not run out of fuel.  Model functions ([_m]) mirror the
    C++ code; spec functions ([_spec]) are the mathematical definitions of Spec.v. *)
 From Tetl Require Import Lib.Base C14.Spec C14.Model C14.Arith
-  C14.ProofsSat C14.ProofsCmp C14.ProofsMid C14.ProofsNum C14.ProofsGcd C14.ProofsRot C14.ProofsBit C14.ProofsCount C14.ProofsPop C14.ProofsSwap C14.NonVac.
+  C14.ProofsSat C14.ProofsCmp C14.ProofsMid C14.ProofsNum C14.ProofsGcd C14.ProofsRot C14.ProofsBit C14.ProofsCount C14.ProofsPop C14.ProofsSwap C14.SpecFacts C14.NonVac.
 Local Open Scope Z_scope.
 
-(** saturation arithmetic: add_sat (builtin path and portable fallback), div_sat, saturate_cast
-    for all 64 (To, From) pairs: the exact result clamped to the range of the type *)
-Theorem C14_saturation :
-  (forall t, WT t -> forall x y, in_ty t x = true -> in_ty t y = true ->
+(** saturation arithmetic: add_sat (builtin path and portable fallback), div_sat, saturate_cast for all 64
+    (To, From) pairs: the exact result clamped to the range of the type; safe comparisons for all 64 type pairs and
+    in_range for all 64 (R, T) pairs: the mathematical comparison of the two values / membership in the range of R *)
+Theorem C14_saturation_cmp :
+  ((forall t, WT t -> forall x y, in_ty t x = true -> in_ty t y = true ->
      add_sat_m t x y = Ok (add_sat_spec t x y) /\ add_sat_fallback_m t x y = Ok (add_sat_spec t x y))
   /\ (forall t, WT t -> forall x y, in_ty t x = true -> in_ty t y = true -> y <> 0 ->
      div_sat_m t x y = Ok (div_sat_spec t x y))
   /\ (forall t x, div_sat_m t x 0 = Contract)
   /\ (forall to from x, WT to -> WT from -> in_ty from x = true ->
-     saturate_cast_m to from x = Ok (saturate_cast_spec to x)).
-Proof.
-  exact (conj (fun t HT x y Hx Hy => conj (add_sat_ok t HT x y Hx Hy) (add_sat_fallback_ok t HT x y Hx Hy))
-        (conj div_sat_ok (conj div_sat_contract saturate_cast_ok))).
-Qed.
-Print Assumptions C14_saturation.
-
-(** safe comparisons for all 64 type pairs and in_range for all 64 (R, T) pairs: the mathematical
-    comparison of the two values / membership in the range of R *)
-Theorem C14_cmp :
-  (forall tt tu t u, WT tt -> WT tu -> in_ty tt t = true -> in_ty tu u = true ->
+     saturate_cast_m to from x = Ok (saturate_cast_spec to x)))
+  /\
+  ((forall tt tu t u, WT tt -> WT tu -> in_ty tt t = true -> in_ty tu u = true ->
      cmp_equal_m tt tu t u = cmp_equal_spec t u
      /\ cmp_not_equal_m tt tu t u = cmp_not_equal_spec t u
      /\ cmp_less_m tt tu t u = cmp_less_spec t u
      /\ cmp_greater_m tt tu t u = cmp_greater_spec t u
      /\ cmp_less_equal_m tt tu t u = cmp_less_equal_spec t u
      /\ cmp_greater_equal_m tt tu t u = cmp_greater_equal_spec t u)
-  /\ (forall r tt t, WT r -> WT tt -> in_ty tt t = true -> in_range_m r tt t = in_range_spec r t).
+  /\ (forall r tt t, WT r -> WT tt -> in_ty tt t = true -> in_range_m r tt t = in_range_spec r t)).
 Proof.
-  exact (conj (fun tt tu t u H1 H2 H3 H4 =>
+  exact (conj ((conj (fun t HT x y Hx Hy => conj (add_sat_ok t HT x y Hx Hy) (add_sat_fallback_ok t HT x y Hx Hy))
+        (conj div_sat_ok (conj div_sat_contract saturate_cast_ok))))
+              ((conj (fun tt tu t u H1 H2 H3 H4 =>
     conj (cmp_equal_ok tt tu t u H1 H2 H3 H4) (conj (cmp_not_equal_ok tt tu t u H1 H2 H3 H4)
     (conj (cmp_less_ok tt tu t u H1 H2 H3 H4) (conj (cmp_greater_ok tt tu t u H1 H2 H3 H4)
     (conj (cmp_less_equal_ok tt tu t u H1 H2 H3 H4) (cmp_greater_equal_ok tt tu t u H1 H2 H3 H4))))))
-    in_range_ok).
+    in_range_ok))).
 Qed.
-Print Assumptions C14_cmp.
+Print Assumptions C14_saturation_cmp.
 
-(** midpoint: a + (b - a) / 2 rounded towards a, for every pair of values incl. the limits with
-    opposite signs *)
-Theorem C14_midpoint : forall t, WT t -> forall a b, in_ty t a = true -> in_ty t b = true ->
-  midpoint_m t a b = Ok (midpoint_spec a b).
-Proof. exact midpoint_ok. Qed.
-Print Assumptions C14_midpoint.
-
-(** gcd, lcm for all 64 (M, N) pairs: the non-negative gcd / lcm of |m| and |n| whenever it is a value of the
+(** midpoint: a + (b - a) / 2 rounded towards a, for every pair of values incl. the limits with opposite signs;
+    gcd, lcm for all 64 (M, N) pairs: the non-negative gcd / lcm of |m| and |n| whenever it is a value of the
     common type (the standard's domain); abs, idiv, ipow, ipow<2>, ilog2: exact integer arithmetic whenever
     the result is representable *)
 Theorem C14_numeric :
-  (forall tm tn m n, WT tm -> WT tn -> in_ty tm m = true -> in_ty tn n = true ->
+  (forall t, WT t -> forall a b, in_ty t a = true -> in_ty t b = true -> midpoint_m t a b = Ok (midpoint_spec a b))
+  /\ (forall tm tn m n, WT tm -> WT tn -> in_ty tm m = true -> in_ty tn n = true ->
      (in_ty (common_type tm tn) (Z.gcd m n) = true -> gcd_m tm tn m n = Ok (gcd_spec m n))
      /\ (in_ty (common_type tm tn) (Z.lcm m n) = true -> lcm_m tm tn m n = Ok (lcm_spec m n)))
   /\ (forall t, WT t ->
@@ -70,23 +60,22 @@ Theorem C14_numeric :
      /\ (forall e, 0 <= e -> in_ty t (2 ^ e) = true -> ipow2_m t e = Ok (ipow_spec 2 e))
      /\ (forall x, 1 <= x -> in_ty t x = true -> ilog2_m t x = Ok (ilog2_spec x))).
 Proof.
-  exact (conj (fun tm tn m n H1 H2 H3 H4 => conj (gcd_ok tm tn m n H1 H2 H3 H4) (lcm_ok tm tn m n H1 H2 H3 H4))
-              (fun t HT => conj (abs_ok t HT) (conj (idiv_ok t HT) (conj (ipow_ok t HT) (conj (ipow2_ok t HT) (ilog2_ok t HT)))))).
+  exact (conj midpoint_ok (conj (fun tm tn m n H1 H2 H3 H4 => conj (gcd_ok tm tn m n H1 H2 H3 H4) (lcm_ok tm tn m n H1 H2 H3 H4))
+              (fun t HT => conj (abs_ok t HT) (conj (idiv_ok t HT) (conj (ipow_ok t HT) (conj (ipow2_ok t HT) (ilog2_ok t HT))))))).
 Qed.
 Print Assumptions C14_numeric.
 
-(** rotl / rotr: every width, every value, EVERY count s (any integer, hence any int: negative, zero,
-    multiples of the width, INT_MIN): the count is taken modulo the width, no shift is out of range;
-    and the specification read bit by bit: bit i of rotl x s is bit (i - s) mod w of x *)
-Theorem C14_rot : forall w, W w -> forall x s, 0 <= x < 2 ^ w ->
+(** rotl / rotr: every width, every value, EVERY count s (any integer, hence any int: negative, zero, multiples of
+    the width, INT_MIN): the count is taken modulo the width, no shift is out of range; and the specification read
+    bit by bit: bit i of rotl x s is bit (i - s) mod w of x.
+    single-bit updates: every width, every word, every position; the precondition pos < digits is checked exactly
+    (contract failure for every other position, no shift out of range) *)
+Theorem C14_rot_single_bit :
+  (forall w, W w -> forall x s, 0 <= x < 2 ^ w ->
   rotl_m w x s = Ok (rotl_spec w x s) /\ rotr_m w x s = Ok (rotr_spec w x s)
-  /\ (forall i, 0 <= i < w -> Z.testbit (rotl_spec w x s) i = Z.testbit x ((i - s) mod w)).
-Proof. exact rot_all. Qed.
-Print Assumptions C14_rot.
-
-(** single-bit updates: every width, every word, every position; the precondition pos < digits is checked
-    exactly (contract failure for every other position, no shift out of range) *)
-Theorem C14_single_bit : forall w, W w -> forall word pos, 0 <= word < 2 ^ w -> 0 <= pos ->
+  /\ (forall i, 0 <= i < w -> Z.testbit (rotl_spec w x s) i = Z.testbit x ((i - s) mod w)))
+  /\
+  (forall w, W w -> forall word pos, 0 <= word < 2 ^ w -> 0 <= pos ->
   (pos < w ->
      set_bit_m w word pos = Ok (set_bit_spec word pos)
      /\ reset_bit_m w word pos = Ok (reset_bit_spec word pos)
@@ -95,9 +84,9 @@ Theorem C14_single_bit : forall w, W w -> forall word pos, 0 <= word < 2 ^ w -> 
      /\ (forall v, assign_bit_m w word pos v = Ok (assign_bit_spec word pos v)))
   /\ (w <= pos ->
      set_bit_m w word pos = Contract /\ reset_bit_m w word pos = Contract /\ flip_bit_m w word pos = Contract
-     /\ test_bit_m w word pos = Contract /\ (forall v, assign_bit_m w word pos v = Contract)).
-Proof. exact single_bit_all. Qed.
-Print Assumptions C14_single_bit.
+     /\ test_bit_m w word pos = Contract /\ (forall v, assign_bit_m w word pos v = Contract))).
+Proof. exact (conj rot_all single_bit_all). Qed.
+Print Assumptions C14_rot_single_bit.
 
 (** popcount (run-time builtin by its documented meaning; the portable "val &= val - 1" loop by induction),
     has_single_bit, countl_zero/one (shift-left loops), countr_zero/one (test_bit loops), bit_width, bit_floor
@@ -124,6 +113,40 @@ Theorem C14_byteswap :
         hton_m w v = Ok (hton_spec w v) /\ ntoh_m w v = Ok (hton_spec w v)).
 Proof. exact swap_all. Qed.
 Print Assumptions C14_byteswap.
+
+(** (1) what the model does OUTSIDE the documented domain, exactly - so that "no result depends on overflow" is seen
+    to hold precisely on the documented domain: abs(min) and idiv(min, -1) are computed in int for signed char /
+    short (the result converts back to min) and are signed overflow (UB) for int / long; idiv by zero is a division
+    by zero (no precondition in the code); ipow with a non-positive exponent is 1; ilog2 of a value below 2 is 0
+    (div_sat by zero and single-bit positions >= digits are contract failures: C14_saturation_cmp, C14_rot_single_bit;
+    bit_ceil above 2^(w-1) is UB BadShift: C14_counts).
+    (2) the specification read back against the wording of the standard (no code, no model involved): bit_ceil is
+    the least power of two >= x, bit_floor the greatest power of two <= x, bit_width the position of the highest set
+    bit, rotl stays in range, midpoint lies between its arguments with the odd half on a's side, byteswap of n
+    bytes is an involution, countr_zero is the index of the lowest set bit (2^k divides x) *)
+Theorem C14_domain_and_spec :
+  (forall t, WT t ->
+  (sgn t = true -> bits t < 32 -> abs_m t (imin t) = Ok (imin t) /\ idiv_m t (imin t) (-1) = Ok (imin t, 0))
+  /\ (sgn t = true -> 32 <= bits t -> abs_m t (imin t) = UB SignedOverflow /\ idiv_m t (imin t) (-1) = UB SignedOverflow)
+  /\ (forall x, idiv_m t x 0 = UB DivByZero)
+  /\ (forall b e, e <= 0 -> ipow_m t b e = Ok 1)
+  /\ (forall x, x <= 1 -> ilog2_m t x = Ok 0))
+  /\
+  ((forall x, 0 <= x ->
+     (exists k, 0 <= k /\ bit_ceil_spec x = 2 ^ k) /\ x <= bit_ceil_spec x
+     /\ (forall k, 0 <= k -> x <= 2 ^ k -> bit_ceil_spec x <= 2 ^ k))
+  /\ (forall x, 0 < x -> (exists k, 0 <= k /\ bit_floor_spec x = 2 ^ k) /\ bit_floor_spec x <= x < 2 * bit_floor_spec x)
+  /\ (forall x, 0 <= x -> 0 <= bit_width_spec x /\ x < 2 ^ bit_width_spec x /\ (0 < x -> 2 ^ (bit_width_spec x - 1) <= x))
+  /\ (forall w x s, 0 < w -> 0 <= x < 2 ^ w -> 0 <= rotl_spec w x s < 2 ^ w)
+  /\ (forall a b,
+        (a <= b -> a <= midpoint_spec a b <= b /\ 0 <= (b - midpoint_spec a b) - (midpoint_spec a b - a) <= 1)
+        /\ (b <= a -> b <= midpoint_spec a b <= a /\ 0 <= (midpoint_spec a b - b) - (a - midpoint_spec a b) <= 1))
+  /\ (forall n x, 0 <= x < 256 ^ Z.of_nat n ->
+        0 <= byteswap_u_spec n x < 256 ^ Z.of_nat n /\ byteswap_u_spec n (byteswap_u_spec n x) = x)
+  /\ (forall w x k, 0 <= k < w -> 0 <= x -> Z.testbit x k = true -> (forall j, 0 <= j < k -> Z.testbit x j = false) ->
+        countr_zero_spec w x = k /\ x mod 2 ^ k = 0)).
+Proof. exact (conj outside_domain spec_facts). Qed.
+Print Assumptions C14_domain_and_spec.
 
 (** the hypotheses above are satisfiable at the corners the property is about *)
 Example C14_nonvacuous :
